@@ -1,0 +1,14 @@
+//go:build !verif
+
+package common
+
+import "sync"
+
+// VerifHooks reports whether the verification scheduling hooks are compiled in.
+const VerifHooks = false
+
+// VerifBeforeLock is a no-op unless built with the verif tag.
+func VerifBeforeLock(*sync.Mutex) {}
+
+// VerifAfterUnlock is a no-op unless built with the verif tag.
+func VerifAfterUnlock(*sync.Mutex) {}
